@@ -3,6 +3,11 @@ package main
 import (
 	"fmt"
 	"go/ast"
+	"go/parser"
+	"go/token"
+	"os"
+	"path/filepath"
+	"sort"
 	"strings"
 )
 
@@ -83,5 +88,107 @@ func init() {
 		fmt.Print(header("overlord/state/state.go", src(fs, b, fd)))
 		fmt.Println("From Coq Require Import String List NArith.\nImport ListNotations.\nRequire Import V.lib.Bytes.")
 		fmt.Printf("Definition unlock_steps : list bytes := [%s].\n", strings.Join(q, "; "))
+
+		// State.Unlocker: the closure it returns must release the lock through s.Unlock() (the checkpointing path) and hand
+		// back s.Lock; steps in source order: "Unlock" (s.Unlock()), "unlock" (s.unlock() or s.mu.Unlock()), "Lock" (s.Lock
+		// called or returned as a value)
+		ud := pfMethod(f, "State", "Unlocker")
+		if ud == nil || ud.Body == nil {
+			die("overlord/state/state.go: method State.Unlocker not found")
+		}
+		urecv := pfRecvName(ud)
+		var usteps []string
+		ast.Inspect(ud.Body, func(n ast.Node) bool {
+			if _, ok := n.(*ast.GoStmt); ok {
+				die("State.Unlocker starts a goroutine")
+			}
+			se, ok := n.(*ast.SelectorExpr)
+			if !ok {
+				return true
+			}
+			if id, ok := se.X.(*ast.Ident); ok && id.Name == urecv {
+				switch se.Sel.Name {
+				case "Unlock", "unlock", "Lock":
+					usteps = append(usteps, se.Sel.Name)
+				}
+			}
+			if inner, ok := se.X.(*ast.SelectorExpr); ok && se.Sel.Name == "Unlock" && inner.Sel.Name == "mu" {
+				usteps = append(usteps, "unlock")
+			}
+			return true
+		})
+		if len(usteps) == 0 {
+			die("State.Unlocker no longer mentions s.Unlock / s.Lock")
+		}
+		uq := make([]string, len(usteps))
+		for i, s := range usteps {
+			uq[i] = `bs "` + s + `"`
+		}
+		fmt.Printf("Definition unlocker_steps : list bytes := [%s].\n", strings.Join(uq, "; "))
+
+		// every function of overlord/state (non-test files) that calls the non-checkpointing x.unlock(), and every one that
+		// calls x.mu.Unlock() on a State
+		dir := filepath.Join(repo, "overlord/state")
+		ents, err := os.ReadDir(dir)
+		if err != nil {
+			die("%v", err)
+		}
+		var lower, raw []string
+		for _, e := range ents {
+			if e.IsDir() || !strings.HasSuffix(e.Name(), ".go") || strings.HasSuffix(e.Name(), "_test.go") {
+				continue
+			}
+			fset := token.NewFileSet()
+			pf, err := parser.ParseFile(fset, filepath.Join(dir, e.Name()), nil, 0)
+			if err != nil {
+				die("%v", err)
+			}
+			for _, d := range pf.Decls {
+				fn, ok := d.(*ast.FuncDecl)
+				if !ok || fn.Body == nil {
+					continue
+				}
+				name := fn.Name.Name
+				recvT := ""
+				if fn.Recv != nil && len(fn.Recv.List) == 1 {
+					t := fn.Recv.List[0].Type
+					if st, ok := t.(*ast.StarExpr); ok {
+						t = st.X
+					}
+					if id, ok := t.(*ast.Ident); ok {
+						recvT = id.Name
+						name = id.Name + "." + name
+					}
+				}
+				ast.Inspect(fn.Body, func(n ast.Node) bool {
+					call, ok := n.(*ast.CallExpr)
+					if !ok {
+						return true
+					}
+					se, ok := call.Fun.(*ast.SelectorExpr)
+					if !ok {
+						return true
+					}
+					if se.Sel.Name == "unlock" {
+						lower = append(lower, name)
+					}
+					if inner, ok := se.X.(*ast.SelectorExpr); ok && se.Sel.Name == "Unlock" && inner.Sel.Name == "mu" && recvT == "State" {
+						raw = append(raw, name)
+					}
+					return true
+				})
+			}
+		}
+		sort.Strings(lower)
+		sort.Strings(raw)
+		emit := func(name string, l []string) {
+			q := make([]string, len(l))
+			for i, s := range l {
+				q[i] = `bs "` + s + `"`
+			}
+			fmt.Printf("Definition %s : list bytes := [%s].\n", name, strings.Join(q, "; "))
+		}
+		emit("lowercase_unlock_callers", lower)
+		emit("state_mu_unlock_callers", raw)
 	}
 }
